@@ -45,7 +45,11 @@ static void install_traps(void) {
 }
 /* run one case body under a trap: a signal inside chibicc-compiled code is an observation, not a harness crash */
 #define GUARDED(body) do { int sg_; if ((sg_ = sigsetjmp(trap_env, 1)) == 0) { trap_armed = 1; body; trap_armed = 0; } \
-                           else { trap_armed = 0; viol("signal", "sig=%d", sg_); } } while (0)
+                           else { trap_armed = 0; if (sg_ != ABANDON) viol("signal", "sig=%d", sg_); } } while (0)
+/* leave the current case after an observation that makes going on meaningless or dangerous for the driver itself (an object
+   that does not have the bytes it should have must not be filled with a pattern); the observation has been reported */
+#define ABANDON 99
+static void abandon_case(void) { if (trap_armed) siglongjmp(trap_env, ABANDON); }
 
 static int popcnt(const u8 *p, int n) { int c = 0; for (int i = 0; i < n; i++) c += __builtin_popcount(p[i]); return c; }
 static void hexs(char *out, const u8 *p, int n) { for (int i = 0; i < n && i < 40; i++) sprintf(out + 2 * i, "%02x", p[i]); }
@@ -255,7 +259,8 @@ static volatile int nregs;
 static volatile long cb_calls;
 static u8 patbyte(int pat, long i) { return (u8)(pat * 37 + i * 11 + 5); }
 
-static void reg_reset(void) { nregs = 0; }
+static int reg_dynamic;   /* set while a run-time sized block (VLA, alloca) is registered: a misplaced one ends the case */
+static void reg_reset(void) { nregs = 0; reg_dynamic = 0; }
 static void reg_fill(const Reg *r) { for (long i = 0; i < r->n; i++) r->p[i] = patbyte(r->pat, i); }
 static int reg_intact(const Reg *r) { for (long i = 0; i < r->n; i++) if (r->p[i] != patbyte(r->pat, i)) return 0; return 1; }
 
@@ -265,6 +270,7 @@ static int reg_add(void *p, long n, long align, int tag, const char *what) {
   u8 *q = p;
   cb_calls++;
   char dev[64];
+  int misplaced = 0;
   if (align > 1 && ((uintptr_t)q % align) != 0) {
     snprintf(dev, sizeof dev, "%s:misaligned:align=%ld", what, align);
     viol(dev, "object %d (size %ld): address %% %ld == %ld", tag, n, align, (long)((uintptr_t)q % align));
@@ -273,11 +279,14 @@ static int reg_add(void *p, long n, long align, int tag, const char *what) {
     if (n > 0 && regs[i].n > 0 && q < regs[i].p + regs[i].n && regs[i].p < q + n) {
       snprintf(dev, sizeof dev, "%s:overlaps-live-object", what);
       viol(dev, "object %d [%ld bytes] overlaps object %d [%ld bytes] by address distance %ld", tag, n, regs[i].tag, regs[i].n, (long)(q - regs[i].p));
+      misplaced = 1;
     }
   if (n > 0 && q < &here + 1 && q + n > &here - 4096 && q < &here) {
     snprintf(dev, sizeof dev, "%s:below-stack-pointer", what);
     viol(dev, "object %d (size %ld) lies %ld bytes below a callee's frame", tag, n, (long)(&here - q));
+    misplaced = 1;
   }
+  if (misplaced && reg_dynamic) abandon_case();
   if (nregs >= 512) { viol("harness", "registry full"); return -1; }
   regs[nregs] = (Reg){q, n, nregs + 1, align, tag};
   reg_fill(&regs[nregs]);
@@ -302,7 +311,7 @@ long c04_verify(void) { cb_calls++; reg_verify(cb_family); return 0; }
 long c04_mark(void) { return nregs; }
 long c04_drop(long from) { reg_verify(cb_family); reg_drop((int)from); return 0; }
 /* tag: registers the block and returns `ret`, so it can sit inside an expression */
-long c04_tag(void *p, long n, long ret) { reg_add(p, n, 16, 1000 + nregs, cb_family); return ret; }
+long c04_tag(void *p, long n, long ret) { reg_dynamic = 1; reg_add(p, n, 16, 1000 + nregs, cb_family); reg_dynamic = 0; return ret; }
 long c04_id(long x) { cb_calls++; reg_verify(cb_family); return x; }
 /* value read through the variable's own name must be the pattern the registry wrote through its address */
 long c04_val(long idx, long off, long size, u64 v) {
@@ -323,6 +332,8 @@ long c04_same(void *a, void *b, long n, long what) {
   }
   return 0;
 }
+/* plain byte copy done by the driver (a member whose own load/store instructions are not the subject of the case) */
+long c04_cpy(void *d, void *s, long n) { cb_calls++; memmove(d, s, n); return 0; }
 /* partial initialisation: first `nset` bytes hold set[], all others zero */
 static u8 zero_set[64];
 long c04_zero(void *p, long n, long nset) {
@@ -335,7 +346,7 @@ long c04_zero(void *p, long n, long nset) {
   return 0;
 }
 /* dirty the stack below the caller so that zeroes are never luck */
-static void __attribute__((noinline)) dirty_stack(int pat) { volatile u8 *p = alloca(8192); for (int i = 0; i < 8192; i++) p[i] = (u8)pat; }
+static void __attribute__((noinline)) dirty_stack(int pat, long n) { volatile u8 *p = alloca(n); for (long i = 0; i < n; i++) p[i] = (u8)pat; }
 /* call fn with the stack pointer at a chosen residue mod 32 (frames are 16-aligned; ASLR moves the stack in 16-byte steps) */
 static long __attribute__((noinline)) call_par(long (*fn)(long), long arg, int par) {
   long ret, shift = par ? 16 : 0;
@@ -355,7 +366,8 @@ static long __attribute__((noinline)) call_par(long (*fn)(long), long arg, int p
 /* ------------------------------------------------------------------ (b) aggregate copy */
 typedef long (*copy_t)(void *dst, void *src, void *src2, long flag);
 typedef long (*geo_t)(long k);
-typedef struct { int nflags; long flag[2]; int sel[2]; } CopyRow;
+typedef struct { int nflags; long flag[2]; int sel[2]; int two; } CopyRow;
+#define COPY_MAX (8192 + 16)
 static u8 pat1(long i) { return (u8)((i * 7 + 1) % 0x9f + 1); }
 static u8 pat2(long i) { return (u8)((i * 11 + 3) % 0x59 + 0xa6); }
 static void copy_case(copy_t fn, geo_t geo, const CopyRow *r) {
@@ -363,26 +375,33 @@ static void copy_case(copy_t fn, geo_t geo, const CopyRow *r) {
   int nmem = (int)geo(3);
   u8 *D = (u8 *)geo(100), *s1 = (u8 *)geo(101), *s2 = (u8 *)geo(102);
   static const int bgs[] = {0x00, 0xff, 0xa5};
-  if (sa <= 0 || sa > 256 || sd < sa + 32 || sd > 1024) { viol("harness", "sizes %ld %ld", sa, sd); return; }
+  if (sa <= 0 || sa > COPY_MAX || sd < sa + 32 || sd > 3 * COPY_MAX + 64) { viol("harness", "sizes %ld %ld", sa, sd); return; }
   for (int j = 0; j < r->nflags; j++) {
-    long doff = geo(20 + j);
+    long doff = geo(20 + j), doff2 = r->two ? geo(30 + j) : -1;
     if (doff < 16 || doff + sa + 16 > sd) { viol("copy:destination-outside-object", "destination at +%ld size %ld in object of %ld", doff, sa, sd); continue; }
+    if (r->two && (doff2 < 16 || doff2 + sa + 16 > sd || (doff2 < doff + sa && doff < doff2 + sa))) { viol("copy:destination-outside-object", "second destination at +%ld, first at +%ld, size %ld in object of %ld", doff2, doff, sa, sd); continue; }
     for (int b = 0; b < 3; b++) {
       memset(D, bgs[b], sd);
       long ph = b * 5 + j * 17 + cur_case;     /* a fresh source pattern every round: stale temporaries never match by luck */
       for (long i = 0; i < sa; i++) { s1[i] = pat1(i + ph); s2[i] = pat2(i + ph); }
-      dirty_stack(0xd0 + b);
+      dirty_stack(0xd0 + b, 8192 + 8 * sa);
       fn(D, s1, s2, r->flag[j]);
       EVAL();
       const u8 *S = r->sel[j] ? s2 : s1;
-      int bad = 0;
-      for (int m = 0; m < nmem && !bad; m++) {
-        long mo = geo(40 + 2 * m), ms = geo(41 + 2 * m);
-        for (long i = mo; i < mo + ms; i++)
-          if (D[doff + i] != S[i]) { viol("copy:member-bytes-differ", "flag %ld background %#x: byte %ld of %ld-byte aggregate is %02x, source has %02x", r->flag[j], bgs[b], i, sa, D[doff + i], S[i]); bad = 1; break; }
+      for (int which = 0; which < 1 + r->two; which++) {
+        long dof = which ? doff2 : doff;
+        int bad = 0;
+        for (int m = 0; m < nmem && !bad; m++) {
+          long mo = geo(40 + 2 * m), ms = geo(41 + 2 * m);
+          for (long i = mo; i < mo + ms; i++)
+            if (D[dof + i] != S[i]) {
+              viol(which ? "copy:member-bytes-differ:inner-destination" : "copy:member-bytes-differ", "flag %ld background %#x: byte %ld of %ld-byte aggregate is %02x, source has %02x", r->flag[j], bgs[b], i, sa, D[dof + i], S[i]);
+              bad = 1; break;
+            }
+        }
       }
       for (long i = 0; i < sd; i++)
-        if ((i < doff || i >= doff + sa) && D[i] != bgs[b]) { viol("copy:bytes-outside-destination-changed", "flag %ld background %#x: byte %+ld relative to the %ld-byte destination became %02x", r->flag[j], bgs[b], i - doff, sa, D[i]); break; }
+        if ((i < doff || i >= doff + sa) && (doff2 < 0 || i < doff2 || i >= doff2 + sa) && D[i] != bgs[b]) { viol("copy:bytes-outside-destination-changed", "flag %ld background %#x: byte %+ld relative to the %ld-byte destination became %02x", r->flag[j], bgs[b], i - doff, sa, D[i]); break; }
       for (long i = 0; i < sa; i++)
         if (s1[i] != pat1(i + ph) || s2[i] != pat2(i + ph)) { viol("copy:source-changed", "source byte %ld changed", i); break; }
     }
@@ -491,12 +510,48 @@ long c04_wrote_ld(long idx) {
   reg_fill(&regs[idx]);
   return 0;
 }
+/* (g)(h) variably modified types: sizeof / pointer arithmetic / subscript values computed by the unit, held to the dictionary */
+long c04_expect(long got, long want, long what) {
+  cb_calls++;
+  if (got != want) {
+    if (what == 0) viol("vla:sizeof-wrong", "sizeof yields %ld, the type was established with %ld bytes", got, want);
+    else if (what == 3) viol("vla:sizeof-earlier-object-wrong", "sizeof an object declared before the other uses of its type now yields %ld, the object has %ld bytes", got, want);
+    else if (what == 2) viol("vla:pointer-difference-wrong", "difference of two pointers to the variably modified type yields %ld, want %ld", got, want);
+    else viol("vla:element-offset-wrong", "pointer arithmetic / subscripting on the variably modified type yields byte offset (or count) %ld, want %ld", got, want);
+  }
+  return 0;
+}
+/* a VLA object: sizeof must be the expected size, and the object must have room for that many bytes (registered with them) */
+long c04_vla(void *p, long size, long expected, long ret) {
+  if (expected < 0 || expected > (1 << 22)) { viol("harness", "c04_vla expected size"); return ret; }
+  if (size != expected) {
+    cb_calls++;
+    viol("vla:sizeof-wrong", "sizeof the object yields %ld, its type was established with %ld bytes", size, expected);
+    abandon_case();      /* the object cannot be trusted to have `expected` bytes: do not write a pattern into it */
+  }
+  reg_dynamic = 1; reg_add(p, expected, 16, 1000 + nregs, cb_family); reg_dynamic = 0;
+  return ret;
+}
+/* a store through a subscripted name must have landed at the given offset of the registered object that starts at obj */
+long c04_stored(void *obj, long off, long size, u64 v) {
+  for (int i = nregs - 1; i >= 0; i--)
+    if (regs[i].p == (u8 *)obj) return c04_wrote(i, off, size, v);
+  cb_calls++;
+  viol("vla:store-through-name-missed-its-object", "no live object starts at the address the name designates");
+  return 0;
+}
+void *c04_buf(void) { static _Alignas(16) u8 buf[1 << 20]; cb_calls++; return buf; }
+
+static int call_rounds = 2;
 static void call_case(long (*fn)(long), const CallRow *r) {
   if (r->skip) { n_skipped++; return; }
-  for (int par = 0; par < 2; par++) {
+  for (int rd = 0; rd < call_rounds; rd++) {
+    int par = rd & 1;
     reg_reset();
     memcpy(zero_set, r->set, sizeof r->set);
-    dirty_stack(par ? 0xee : 0x5a);
+    /* with four rounds the first two run on a zeroed stack, so that an object sized from a stale slot is first seen as
+       small and overlapping (reported as such) before the patterned rounds make it absurdly large */
+    dirty_stack(call_rounds == 4 && rd < 2 ? 0x00 : par ? 0xee : 0x5a, 65536);
     long c0 = cb_calls;
     long (*volatile cp)(long (*)(long), long, int) = call_par;   /* opaque: the callee runs callbacks that touch driver state */
     long got = cp(fn, r->x, par);
